@@ -8,11 +8,12 @@ sys.path.insert(0, "/verif")
 sys.path.insert(0, "/repo")
 from pyvc import oblig          # noqa
 sys.path.insert(0, "/verif/tools")
-from gen_seeded_meta import ROUND2, ROUND3, ROUND4, ROUND5, ROUND6      # noqa
+from gen_seeded_meta import ROUND2, ROUND3, ROUND4, ROUND5, ROUND6, ROUND7      # noqa
 ROUND2 = dict(ROUND2, **ROUND3)
 ROUND2.update(ROUND4)
 ROUND2.update(ROUND5)
 ROUND2.update(ROUND6)
+ROUND2.update(ROUND7)
 
 kinds = {}
 for i in range(1, 21):
